@@ -39,7 +39,19 @@ fn alpha(cfg: &Cfg) -> Vec<Op> {
     v.push(c(Cbt(None)));
     v.push(c(Lf));
     v.push(calt(Lf, 1));
+    v.push(calt(Lf, 2));
     v.push(calt(Lf, 3));
+    for x in [Some(0), Some(65535)] {
+        v.push(c(Cnl(x)));
+        v.push(c(Cpl(x)));
+        v.push(c(Vpr(x)));
+        v.push(c(Vpa(x)));
+        v.push(c(Cha(x)));
+        v.push(c(Cht(x)));
+        v.push(c(Cbt(x)));
+    }
+    v.push(c8(Cup(Some(2), Some(1))));
+    v.push(c8(Cuu(None)));
     v.push(c8(Nel));
     v.push(c(Nel));
     v.push(c(Ri));
